@@ -52,15 +52,20 @@ def main():
     args = [a for a in sys.argv[1:] if not a.startswith('--')]
     record = '--record' in sys.argv
     jobs = 1
+    only = None          # --only=C05-m13,C05-m14: just these seeded directories
     for a in sys.argv[1:]:
         if a.startswith('--jobs='):
             jobs = int(a.split('=')[1])
+        if a.startswith('--only='):
+            only = set(a.split('=')[1].split(','))
     dirs = []
     for d in sorted(glob.glob(os.path.join(VERIF, 'seeded', '*'))):
         if not os.path.exists(os.path.join(d, 'meta.json')):
             continue
         meta = json.load(open(os.path.join(d, 'meta.json')))
         if args and meta['property'] not in args:
+            continue
+        if only and os.path.basename(d) not in only:
             continue
         dirs.append(d)
     rc = 0
